@@ -11,8 +11,9 @@ wt = f'/tmp/harmwt_{wid}'
 subprocess.run(['git', '-C', '/repo', 'worktree', 'remove', '--force', wt], capture_output=True)
 subprocess.run(['git', '-C', '/repo', 'worktree', 'add', '--detach', wt, 'HEAD'], capture_output=True, check=True)
 probes = sorted(d for d in glob.glob(VERIF + '/seeded/harmless/C*') if os.path.isdir(d))
-only = sys.argv[3:]
+only = [a for a in sys.argv[3:] if not a.startswith('--')]
 ALL = [f'C{i:02d}' for i in range(1, 21)]
+OWN = '--own' in sys.argv          # quick pass: only the check of the property the probe was written for (its results are kept under `alarms_own`)
 try:
     for i, d in enumerate(probes):
         if i % nw != wid:
@@ -37,7 +38,7 @@ try:
             m['applied_with_fuzz'] = True
         out = tempfile.mkdtemp(prefix='harmout_', dir='/tmp')
         procs = {}
-        for p in ALL:
+        for p in ([m.get('property') or sid.split('-')[0]] if OWN else ALL):
             e = dict(os.environ, REPO_ROOT=wt, VERIF_OUT=os.path.join(out, p))
             procs[p] = subprocess.Popen([VERIF + '/bin/vcheck', p, '--tier', 'quick'], env=e, stdout=subprocess.PIPE, stderr=subprocess.STDOUT, text=True)
         res = {}
@@ -48,7 +49,7 @@ try:
                 res[p] = {'rc': pr.returncode, 'lines': lines or o.splitlines()[-4:]}
         shutil.rmtree(out, ignore_errors=True)
         m['applies'] = True
-        m['alarms'] = res
+        m['alarms_own' if OWN else 'alarms'] = res
         json.dump(m, open(d + '/meta.json', 'w'), indent=1, ensure_ascii=False)
         print(sid, 'ALARMS' if res else 'quiet', {k: v['rc'] for k, v in res.items()}, flush=True)
         for k, v in res.items():
